@@ -41,6 +41,15 @@ class C03(Prop):
   theorems = ['DK.C03.feasible_iff_spec_device', 'DK.C03.feasible_iff_spec_sdevice', 'DK.C03.feasible_iff_spec_sdevice_rec',
               'DK.C03.feasible_iff_spec_adevice', 'DK.C03.feasible_iff_spec_leaf', 'DK.C03.chargeAt_eq_socRec',
               'DK.C03.deviceCons_length', 'DK.C03.sdeviceCons_length', 'DK.C09.socDot_eq_chargeAt']
+  uses_t1 = True      # T1v regenerates DK/Gen/Vec.lean from the current source before the bridge is audited
+  bridge_vec = ['DK.BridgeVec.Device_constraints_fun0', 'DK.BridgeVec.Device_constraints_jac0',
+                'DK.BridgeVec.Device_constraints_fun1', 'DK.BridgeVec.Device_constraints_jac1', 'DK.BridgeVec.Device_constraints',
+                'DK.BridgeVec.SDevice_constraints_soc', 'DK.BridgeVec.SDevice_constraints_fun0',
+                'DK.BridgeVec.SDevice_constraints_jac0', 'DK.BridgeVec.SDevice_constraints_fun1',
+                'DK.BridgeVec.SDevice_constraints_jac1', 'DK.BridgeVec.SDevice_constraints_socCons',
+                'DK.BridgeVec.SDevice_constraints_fun2', 'DK.BridgeVec.SDevice_constraints_fun3',
+                'DK.BridgeVec.SDevice_constraints_fun4', 'DK.BridgeVec.SDevice_constraints_jac4']      # T1v: vector method bodies (vk/translate_vec.py, DK/Lemmas/BridgeVec.lean)
+  bridge = bridge_vec
   rule = ('every atomic class x horizon n (1..8 quick, ..31 thorough) x cumulative-bound form (none, 2-tuple, one 4-tuple whole/sub-range, '
           'several contiguous, several overlapping, nested; CDevice2 default) x storage (efficiency/sustainment =1 and <1, rate_clip absent / None / scalar k / '
           '(k, None) / (None, k) / (k1, k2) with k1 != k2, reserve 0 and >0; 12 %: parameter changed through its setter after a first read of .constraints) x ADevice user constraints (eq/ineq, with/without jac); probes: interior, box vertices, '
